@@ -344,6 +344,13 @@ def _self_field_writes(fn):
             rv = st[2]
             if rv[0] == "ref" and rv[1] == "mut" and isinstance(rv[2], dict) and rv[2].get("l") == 1 and rv[2]["p"] and rv[2]["p"][0][0] == "f":
                 out.setdefault(rv[2]["p"][0][2], []).append(("borrow_mut", None))
+            # struct-update form `Self { field: value, ..self }`: every field that is not moved over from the same field of `self` is written
+            if rv[0] == "agg" and rv[1].get("k") == "adt" and rv[1].get("adt", "").endswith("SanitizerConfig") and len(rv[1].get("fields", [])) == len(rv[2]):
+                for name, op in zip(rv[1]["fields"], rv[2]):
+                    pl = op.get("pl") if isinstance(op, dict) else None
+                    same = isinstance(pl, dict) and pl.get("l") == 1 and len(pl.get("p", [])) == 1 and pl["p"][0][0] == "f" and pl["p"][0][2] == name
+                    if not same:
+                        out.setdefault(name, []).append(("assign", ["use", op]))
     return out
 
 
